@@ -90,7 +90,9 @@ def float_safe(P):
         return True
     if d["q"] == 0:   # 1 - 2*px*g2 must be exactly 0.0 in floats: dyadic beta and g2 only
         return all(x.denominator & (x.denominator - 1) == 0 for x in (d["beta"], d["g2"]))
-    return d["q"] >= F(1, 20) and d["g2"] >= F(1, 200)
+    # p2 = (1 - x - sqrt(1 - 2x)) / g2 cancels: its float error is about 3e-16 / g2, which must stay well below the
+    # comparison tolerance 1e-9 also when several requested photons multiply it
+    return d["q"] >= F(1, 20) and d["g2"] >= F(1, 200000)
 
 
 BETAS = [F(1), F(9, 10), F(3, 4), F(1, 2), F(2, 5), F(1, 4), F(7, 8)]
@@ -198,7 +200,83 @@ def lattice_required():
             if not (k == "samples-filter" and "L" in c.split(":")[0])]
 
 
+# MAGNITUDES.  The lattice says WHICH parameters are imperfect, not HOW MUCH: a piecewise evaluation (a series
+# expansion below some threshold of brightness*g2, a shortcut for "negligible" loss, ...) is only entered for
+# values of the right order of magnitude.  Every decade of x = brightness*g2 from 1e-5 (below that the float
+# cancellation of the code's closed form exceeds the comparison tolerance) to 1e-2, with brightness < 1 and = 1, and
+# the extremes of the other axes are required classes of every exact kind of observation.
+MAG_QS = (F(99, 100), F(999, 1000), F(9999, 10000), F(99999, 100000))      # x = (1 - q^2) / 2 ~ 1e-2 .. 1e-5
+MAG_GRID = {"beta": (F(1, 100), F(1, 1000), F(999, 1000), F(1, 10)), "q": MAG_QS,
+            "eta": (F(1, 100), F(1, 1000), F(999, 1000)), "r": (F(1, 100), F(999, 1000), F(9999, 10000))}
+MAG_KINDS = ("gen", "pd", "proc", "table", "hist-read")
+
+
+def mag_labels(P):
+    """the magnitude classes a parameter tuple belongs to"""
+    d = derived(P)
+    out = []
+    x = d["beta"] * d["g2"]
+    if 0 < x < F(3, 100):
+        dec = "1e-5" if x < F(3, 100000) else "1e-4" if x < F(3, 10000) else "1e-3" if x < F(3, 1000) else "1e-2"
+        out.append(f"x~{dec}:{'b<1' if d['beta'] < 1 else 'b=1'}")
+    if d["beta"] <= F(1, 50):
+        out.append("beta<=1/50")
+    if F(99, 100) <= d["beta"] < 1:
+        out.append("beta>=0.99")
+    if 0 < d["eta"] <= F(1, 50):
+        out.append("eta<=1/50")
+    if F(99, 100) <= d["eta"] < 1:
+        out.append("eta>=0.99")
+    if 0 < d["r"] <= F(1, 50):
+        out.append("r<=1/50")
+    if F(99, 100) <= d["r"] < 1:
+        out.append("r>=0.99")
+    return out
+
+
+MAG_LABELS = [f"x~{dec}:{b}" for dec in ("1e-5", "1e-4", "1e-3", "1e-2") for b in ("b<1", "b=1")] + \
+    ["beta<=1/50", "beta>=0.99", "eta<=1/50", "eta>=0.99", "r<=1/50", "r>=0.99"]
+
+
+def build_mag():
+    out = []
+    rest = [(F(1), F(1), INDIST), (F(3, 4), F(4, 5), DIST), (F(9, 10), F(1), DIST), (F(1, 2), F(9, 10), INDIST)]
+    i = 0
+    for q in MAG_QS:
+        for beta in (F(9, 10), F(1, 4), F(1)):
+            eta, r, model = rest[i % 4]
+            i += 1
+            out.append(spec(beta, q, eta, r, model))
+    out += [spec(F(1, 100), F(1), F(1), F(1), DIST), spec(F(1, 100), F(99999, 100000), F(3, 4), F(4, 5), INDIST),
+            spec(F(1, 1000), F(999, 1000), F(1), F(9, 10), DIST), spec(F(999, 1000), F(9999, 10000), F(1), F(1), INDIST),
+            spec(F(999, 1000), F(4, 5), F(999, 1000), F(999, 1000), DIST),
+            spec(F(3, 4), F(3, 5), F(1, 100), F(4, 5), INDIST), spec(F(1), F(4, 5), F(1, 1000), F(1), DIST),
+            spec(F(1), F(1), F(999, 1000), F(1), DIST), spec(F(1, 2), F(4, 5), F(3, 4), F(1, 100), DIST),
+            spec(F(1), F(3, 5), F(1), F(1, 100), INDIST), spec(F(1), F(1), F(1), F(9999, 10000), DIST),
+            spec(F(9, 10), F(999, 1000), F(9, 10), F(999, 1000), INDIST)]
+    assert all(valid(P) for P in out), [P for P in out if not valid(P)]
+    assert set(l for P in out for l in mag_labels(P)) == set(MAG_LABELS)
+    return out
+
+
+def mag_required():
+    return [f"mag:{lab}:{k}" for lab in MAG_LABELS for k in MAG_KINDS]
+
+
+MAG = build_mag()
+POOL = POOL + MAG
+
+
 def rand_params(rng):
+    if rng.random() < 0.15:
+        # one or two axes at an extreme order of magnitude, the others anywhere on the ordinary grid
+        for _ in range(200):
+            v = {"beta": rng.choice(BETAS), "q": rng.choice(QS), "eta": rng.choice(ETAS), "r": rng.choice(RS)}
+            for key in rng.sample(["beta", "q", "q", "eta", "r"], rng.choice([1, 1, 2])):
+                v[key] = rng.choice(MAG_GRID[key])
+            P = spec(v["beta"], v["q"], v["eta"], v["r"], rng.choice([DIST, INDIST]))
+            if valid(P):
+                return P
     if rng.random() < 0.3:
         # a random cell of the imperfection lattice with random non-ideal values on the switched-on axes (a
         # uniformly random tuple has almost never a parameter EXACTLY at its ideal value)
@@ -829,6 +907,30 @@ def judge_bad(chk, case):
 # long-lived Processor: histories of noise updates / assignments / inputs / reads
 # ------------------------------------------------------------------------------------------------
 NOISE_FIELDS = ("brightness", "indistinguishability", "g2", "g2_distinguishable", "transmittance")
+# custom inputs (they bypass the source and are stored in the slot that otherwise caches the generated mixture):
+# an SVDistribution of two Fock states, an SVDistribution made of the single Fock state that is / was the plain input,
+# a superposed StateVector, a polarised BasicState (with_polarized_input)
+CUSTOM_FORMS = ("svd", "svd-same", "sv", "polarized")
+
+
+def custom_object(st, mt):
+    """-> (the object the user hands over, the SVDistribution `source_distribution` has to return)"""
+    from perceval.utils import BasicState, StateVector, SVDistribution
+    a, b = [1] + [0] * (mt - 1), [0] * (mt - 1) + [2]
+    form = st["form"]
+    if form == "svd":
+        obj = SVDistribution({StateVector(BasicState(a)): 0.25, StateVector(BasicState(b)): 0.75})
+        return obj, obj
+    if form == "svd-same":
+        obj = SVDistribution(BasicState(st["ns"]))
+        return obj, obj
+    if form == "sv":
+        obj = BasicState(a) + BasicState(b)
+        return obj, SVDistribution(obj)
+    if form == "polarized":
+        obj = BasicState("|{P:H}" + ",0" * (mt - 1) + ">")
+        return obj, SVDistribution(obj)
+    raise ValueError("unknown custom form " + form)
 
 
 def noise_kwargs(P):
@@ -852,12 +954,34 @@ class HistBook:
         self.held = self.none_id if k is None else k
         self.dirty = False
         self.cached = False
-        self.ns = None
+        self.ns = None              # the current Fock input as the source sees it (heralds merged in), or None
+        self.custom = None          # identity of the current custom input, or None
+        self.custom_form, self.custom_assigned = None, False
+        self.heralds = sorted((int(k), v) for k, v in (case["init"].get("heralds") or {}).items())
+        self.m_total = case["m"] + len(self.heralds)
+        self.filter_set = False
+        # what happened since the last Fock input: None (nothing yet) or a dict
+        self.since_fock = None
         self.shapes = set()
+        if self.heralds:
+            self.shapes.add("hist-herald")
+
+    def full(self, ns):
+        """the BasicState `with_input` hands to the source: heralded modes merged into the user's state"""
+        out = list(ns)
+        for pos, val in self.heralds:
+            out.insert(pos, val)
+        return out
 
     def ok(self, st):
         """is the step well-formed in this state?"""
         op = st["op"]
+        if op == "custom":
+            return st["form"] in CUSTOM_FORMS and (st["form"] != "svd-same" or len(st["ns"]) == self.m_total)
+        if op == "clear":
+            return not self.heralds         # clear_input_and_circuit also removes the heralds
+        if op == "probs":
+            return self.filter_set and (self.ns is not None or self.custom is not None)
         if op == "set":
             return st["id"] in self.vals and st["id"] != self.none_id and \
                 (st["via"] != "getter" or st["id"] == self.held)
@@ -905,19 +1029,58 @@ class HistBook:
                 self.shapes.add("hist-noise-none")
             if st.get("route") == "experiment":
                 self.shapes.add("hist-experiment-route")
-            self.held, self.dirty, self.cached = k, False, False
+            if self.custom is not None:
+                self.shapes.add("hist-noise-assigned-under-custom")
+                self.custom_assigned = True
+            if self.since_fock is not None:
+                self.since_fock["assigned"] = True
+            # a custom input stays in the slot, a generated mixture is dropped
+            self.held, self.dirty, self.cached = k, False, self.custom is not None
         elif op == "input":
+            new = self.full(st["ns"])
             if self.ns is not None:
                 self.shapes.add("hist-input-change")
-                if st["ns"] != self.ns and sum(st["ns"]) == sum(self.ns) and self.cached:
+                if new != self.ns and sum(new) == sum(self.ns) and self.cached:
                     self.shapes.add("hist-input-change-same-photon-number")
-            self.ns = st["ns"]
+                if new == self.ns:
+                    self.shapes.add("hist-same-input-again")
+            sf = self.since_fock
+            if sf is not None and sf["custom"]:
+                same = "same" if new == sf["ns"] else "other"
+                self.shapes.add(f"hist-fock-after-custom-{same}-state")
+                if sf["assigned"]:
+                    self.shapes.add(f"hist-fock-after-custom-{same}-state-noise-assigned")
+            if sf is not None and sf["cleared"]:
+                self.shapes.add("hist-fock-after-clear")
+            self.ns, self.custom = new, None
+            self.since_fock = {"ns": new, "custom": False, "assigned": False, "cleared": False}
             self.cached = True
-        elif op == "read":
+        elif op == "custom":
+            self.shapes.add("hist-custom-" + st["form"])
+            if self.since_fock is not None:
+                self.since_fock["custom"] = True
+            self.ns, self.custom, self.cached = None, st["c"], True
+            self.custom_form, self.custom_assigned = st["form"], False
+        elif op == "clear":
+            self.shapes.add("hist-clear")
+            if self.since_fock is not None:
+                self.since_fock["cleared"] = True
+            self.ns, self.custom, self.cached = None, None, False
+        elif op == "filter":
+            self.filter_set = True
+        elif op in ("read", "probs"):
+            if op == "probs":
+                self.shapes.add("hist-probs")
             if self.dirty:
                 self.shapes.add("hist-dirty-read-unjudged")
             elif self.ns is not None:
                 self.shapes.add("hist-read-cached" if self.cached else "hist-read-regenerates")
+            elif self.custom is not None:
+                self.shapes.add("hist-custom-read")
+                if self.custom_assigned and op == "read":
+                    self.shapes.add("hist-custom-read-after-noise-assigned-" + self.custom_form)
+            elif op == "read" and self.since_fock is not None and self.since_fock["cleared"]:
+                self.shapes.add("hist-read-after-clear")
             if self.ns is not None:
                 self.cached = True
         elif op == "source":
@@ -932,8 +1095,12 @@ class HistBook:
         if op == "assign":
             return {"op": "assign", "id": self.none_id if st["id"] is None else st["id"]}
         if op == "input":
-            return {"op": "input", "ns": st["ns"]}
-        if op == "read":
+            return {"op": "input", "ns": self.full(st["ns"])}
+        if op == "custom":
+            return {"op": "custom", "c": st["c"]}
+        if op == "clear":
+            return {"op": "clear"}
+        if op in ("read", "probs"):       # probs() reads source_distribution (and so fills the cache)
             return {"op": "read"}
         if op == "source":
             return {"op": "source", "ns": st["ns"], "thr": core.rat(F(st["thr"]) if st.get("thr") else 0)}
@@ -996,9 +1163,12 @@ def judge_hist(chk, case):
         k = case["init"]["noise"]
         nm0 = None if k is None else objs[k]
         if case["init"].get("route") == "experiment":
-            proc = pcvl.Processor("SLOS", pcvl.Experiment(m, noise=nm0))
+            proc = pcvl.Processor("SLOS", pcvl.Experiment(book.m_total, noise=nm0))
         else:
-            proc = pcvl.Processor("SLOS", m, noise=nm0)
+            proc = pcvl.Processor("SLOS", book.m_total, noise=nm0)
+        for pos, val in book.heralds:
+            proc.add_herald(pos, val)
+        customs = {}
         for i, st in enumerate(case["steps"]):
             op = st["op"]
             where = f"step {i} ({op})"
@@ -1021,8 +1191,19 @@ def judge_hist(chk, case):
                     proc.noise = nm
             elif op == "input":
                 proc.with_input(BasicState(st["ns"]))
+            elif op == "custom":
+                obj, want = custom_object(st, book.m_total)
+                customs[st["c"]] = want
+                if st["form"] == "polarized":
+                    proc.with_polarized_input(obj)
+                else:
+                    proc.with_input(obj)
+            elif op == "clear":
+                proc.clear_input_and_circuit(book.m_total)
             elif op == "filter":
                 proc.min_detected_photons_filter(st["k"])
+            elif op == "probs":
+                proc.probs()
             elif op == "read":
                 svd = proc.source_distribution
                 judged, ns_req = not book.dirty, book.ns
@@ -1039,6 +1220,17 @@ def judge_hist(chk, case):
             if not judged:
                 continue
             Pcur = book.vals[book.held]
+            if op == "read" and book.custom is not None:
+                # a custom input bypasses the source (outside the property statement: model-vs-code only)
+                try:
+                    same = svd is not None and bool(svd == customs[book.custom])
+                except Exception:  # noqa
+                    same = False
+                if fail is None and not same:
+                    fail = f"{where}: source_distribution is not the custom input that was given"
+                elif fail is None and outs[i].get("custom") != book.custom:
+                    fail = f"{where}: the model does not return the custom input"
+                continue
             if ns_req is None:
                 if svd is not None:
                     return ("violation", "distribution-without-input",
@@ -1047,11 +1239,21 @@ def judge_hist(chk, case):
             if svd is None:
                 return ("violation", "no-distribution",
                         f"{where}: source_distribution is None although an input was given", case)
-            entries = svd_entries(svd)
+            not_fock = None
+            try:
+                entries = svd_entries(svd)
+            except ValueError as e:
+                entries, not_fock = [], str(e)
             if sum(ns_req) > 0:
                 chk.branch(f"imp:{cell_of(Pcur)}:hist-read")
-            orc = oracle_distribution(Pcur, ns_req, entries) if thr is None or thr <= 1e-16 else \
-                oracle_structure(Pcur, ns_req, entries, normalised=True)
+                for lab in mag_labels(Pcur):
+                    chk.branch(f"mag:{lab}:hist-read")
+            if not_fock is not None:
+                orc = ("not-a-fock-mixture", f"the distribution for the Fock input {ns_req} is not a mixture of "
+                                             f"annotated Fock states ({not_fock})")
+            else:
+                orc = oracle_distribution(Pcur, ns_req, entries) if thr is None or thr <= 1e-16 else \
+                    oracle_structure(Pcur, ns_req, entries, normalised=True)
             if orc is not None:
                 sg, txt = orc
                 try:
@@ -1095,7 +1297,7 @@ def hist_simpler(case):
     if case["init"].get("route") == "experiment":
         yield {**case, "init": {**case["init"], "route": "ctor"}}
     for i, st in enumerate(steps):
-        for key, val in (("route", "proc"), ("via", "ref"), ("fields", "all")):
+        for key, val in (("route", "proc"), ("via", "ref"), ("fields", "all"), ("form", "svd")):
             if key in st and st[key] != val:
                 cand = {**case, "steps": steps[:i] + [{**st, key: val}] + steps[i + 1:]}
                 if hist_wellformed(cand):
@@ -1148,7 +1350,24 @@ def gen_hist(rng, pick_params):
     case = {"kind": "hist", "m": m, "objs": [pick_params() for _ in range(nobj)],
             "init": {"noise": rng.choice([0, 0, 0, None]), "route": rng.choice(["ctor", "ctor", "experiment"])},
             "steps": []}
+    if m <= 2 and rng.random() < 0.15:
+        # a heralded mode: `with_input` merges the herald's photons into the state the source is applied to
+        case["init"]["heralds"] = {str(rng.randrange(m + 1)): rng.choice([1, 1, 0])}
     book = HistBook(case)
+    last_user = [None]
+    counter = [0]
+
+    def emit_input(ns):
+        last_user[0] = list(ns)
+        emit({"op": "input", "ns": list(ns)})
+
+    def emit_custom(form=None):
+        form = form or rng.choice(CUSTOM_FORMS)
+        counter[0] += 1
+        st = {"op": "custom", "c": counter[0], "form": form}
+        if form == "svd-same":      # the Fock state that is (was) the plain input, handed over as a distribution
+            st["ns"] = book.full(last_user[0] if last_user[0] is not None else rand_ns())
+        emit(st)
 
     def emit(st):
         assert book.ok(st), st
@@ -1159,13 +1378,64 @@ def gen_hist(rng, pick_params):
         return rng.choice(["proc", "proc", "experiment"])
 
     if rng.random() < 0.85:
-        emit({"op": "input", "ns": rand_ns()})
+        emit_input(rand_ns())
         if rng.random() < 0.5:
             emit({"op": "read"})
     for _ in range(rng.randint(1, 4)):
         move = rng.choice(["sweep", "sweep", "sweep", "other", "equal", "equal", "same", "none", "input", "input", "source",
-                           "filter", "read"])
-        if move == "sweep":
+                           "filter", "read", "roundtrip", "roundtrip", "roundtrip", "custom", "clear", "probs",
+                           "again"])
+        if move == "roundtrip":
+            # Fock state A, a custom input (it overwrites the slot of the cached mixture), [reads, a noise assignment,
+            # a filter change, probs() in between], then a Fock state again — the SAME one most of the time
+            if book.ns is None or rng.random() < 0.3:
+                emit_input(rand_ns())
+                if rng.random() < 0.5:
+                    emit({"op": "read"})
+            a = list(last_user[0])
+            emit_custom()
+            for _ in range(rng.randint(0, 2)):
+                mid = rng.choice(["read", "assign-same", "assign-other", "sweep", "filter-probs", "custom"])
+                if mid == "read":
+                    emit({"op": "read"})
+                elif mid == "assign-same":
+                    emit({"op": "assign", "id": None if book.held == book.none_id else book.held, "route": route()})
+                elif mid == "assign-other":
+                    emit({"op": "assign", "id": rng.randrange(nobj), "route": route()})
+                elif mid == "sweep" and book.held != book.none_id:
+                    emit({"op": "set", "id": book.held, "P": new_value(book.vals[book.held]),
+                          "via": rng.choice(["ref", "getter"]), "fields": rng.choice(["all", "changed"])})
+                    emit({"op": "assign", "id": book.held, "route": route()})
+                elif mid == "filter-probs":
+                    emit({"op": "filter", "k": rng.randint(0, 1)})
+                    emit({"op": "probs"})
+                elif mid == "custom":
+                    emit_custom()
+            emit_input(a if rng.random() < 0.7 else rand_ns())
+            if rng.random() < 0.9:
+                emit({"op": "read"})
+        elif move == "custom":
+            emit_custom()
+            if rng.random() < 0.6:
+                emit({"op": "read"})
+        elif move == "clear" and not book.heralds:
+            emit({"op": "clear"})
+            if rng.random() < 0.5:
+                emit({"op": "read"})
+            if rng.random() < 0.7:
+                emit_input(last_user[0] if last_user[0] is not None and rng.random() < 0.5 else rand_ns())
+        elif move == "probs" and (book.ns is not None or book.custom is not None):
+            if not book.filter_set or rng.random() < 0.3:
+                emit({"op": "filter", "k": rng.randint(0, 1)})
+            emit({"op": "probs"})
+        elif move == "again" and book.ns is not None and last_user[0] is not None:
+            # the very same Fock state given again (loops do that), possibly after the noise was replaced
+            if rng.random() < 0.5 and book.held != book.none_id:
+                emit({"op": "set", "id": book.held, "P": new_value(book.vals[book.held]), "via": "ref", "fields": "changed"})
+                emit({"op": "assign", "id": book.held, "route": route()})
+            emit_input(last_user[0])
+            emit({"op": "read"})
+        elif move == "sweep":
             if book.held == book.none_id:
                 emit({"op": "assign", "id": rng.randrange(nobj), "route": route()})
                 if rng.random() < 0.5:
@@ -1199,17 +1469,17 @@ def gen_hist(rng, pick_params):
             emit({"op": "assign", "id": None, "route": route()})
         elif move == "input":
             ns = rand_ns()
-            if book.ns is not None and m > 1 and sum(book.ns) > 0 and rng.random() < 0.6:
+            if book.ns is not None and m > 1 and sum(last_user[0]) > 0 and rng.random() < 0.6:
                 # another arrangement of the same number of photons (a summary of the input is unchanged)
                 for _ in range(20):
-                    cand = list(book.ns)
+                    cand = list(last_user[0])
                     i, j = rng.sample(range(m), 2)
                     if cand[i] > 0 and cand[j] < 2:
                         cand[i] -= 1
                         cand[j] += 1
                         ns = cand
                         break
-            emit({"op": "input", "ns": ns})
+            emit_input(ns)
             if rng.random() < 0.7:
                 emit({"op": "read"})
         elif move == "source":
@@ -1221,10 +1491,11 @@ def gen_hist(rng, pick_params):
     if book.dirty:
         emit({"op": "assign", "id": book.held, "route": route()})
     if book.ns is None:
-        emit({"op": "input", "ns": rand_ns()})
+        # end on a Fock input so that the last read is judged; after a custom input preferably the earlier Fock state
+        emit_input(last_user[0] if last_user[0] is not None and rng.random() < 0.6 else rand_ns())
     emit({"op": "read"})
     if rng.random() < 0.5:
-        emit({"op": "source", "ns": book.ns, "thr": None})
+        emit({"op": "source", "ns": last_user[0], "thr": None})
     return case
 
 
@@ -1312,7 +1583,7 @@ def all_inputs(max_modes, max_per_mode, max_total):
 def handle_hist(chk, case):
     chk.count("kind", "hist")
     if not hist_wellformed(case):
-        raise ValueError("malformed history case")
+        raise ValueError("malformed history case " + json.dumps(case)[:1500])
     for sh in hist_shapes(case):
         chk.branch(sh)
         chk.count("hist_shape", sh)
@@ -1348,6 +1619,10 @@ def handle(chk, case):
         chk.count("imperfection_cell", cell)
         lk = kind if kind != "samples" else ("samples-filter" if case["f"] else "samples-nofilter")
         chk.branch(f"imp:{cell}:{lk}")
+        if lk in MAG_KINDS:
+            for lab in mag_labels(P):
+                chk.branch(f"mag:{lab}:{lk}")
+                chk.count("magnitude_class", lab)
         if d["g2"] > 0 and d["eta"] < 1 and d["ind"] < 1:
             chk.branch("g2-loss-hom-together")
         if d["eta"] == 0:
@@ -1415,8 +1690,12 @@ def run(chk: core.Check):
                 "replaced; and HISTORIES on one long-lived Processor: NoiseModel objects updated in place with "
                 "set_value through the kept reference or through processor.noise and assigned again — the same "
                 "object, an equal new object, another object, None — via processor.noise or "
-                "processor.experiment.noise, inputs replaced, reads that fill the cache in between, direct "
-                "requests to processor.source; every read made while the held object is not in the 'updated in "
+                "processor.experiment.noise, inputs replaced, the same input given again, CUSTOM inputs (SVDistribution, "
+                "an SVDistribution made of the plain input state, a superposed StateVector, a polarised state via "
+                "with_polarized_input — they bypass the source and occupy the slot of the cached mixture) followed by "
+                "the same or another Fock state with reads / noise assignments / filter changes / probs() in "
+                "between, clear_input_and_circuit, a heralded mode merged into the input, reads that fill the cache "
+                "in between, direct requests to processor.source; every read made while the held object is not in the 'updated in "
                 "place, not yet re-assigned' state is judged against the CURRENT parameters), "
                 "probability_distribution, _compute_prob_table/cache_prob_table, "
                 "generate_samples (goodness-of-fit TEST at false-alarm level 1e-9, not a proof; two thirds of the "
@@ -1425,12 +1704,16 @@ def run(chk: core.Check):
                 "not, transmittance also 0, x both multiphoton models = 48 cells) x every kind of observation incl. "
                 "filtered samples requested after a stricter / weaker filter for the same photon number or the same "
                 "filter for another photon number on the same Source, and a long-lived Processor swept across every "
-                "edge of the lattice; fixed parameter classes x ALL inputs with <=3 modes and 0..2 (thorough 0..3) photons "
+                "edge of the lattice; orders of magnitude (every decade of brightness*g2 from 1e-5 to 1e-2 with "
+                "brightness < 1 and = 1, brightness / transmittance / sqrt(indistinguishability) down to 1e-2..1e-3 and "
+                "up to 1 - 1e-3..1e-4) x every exact kind of observation; fixed parameter classes x ALL inputs with <=3 modes and 0..2 (thorough 0..3) photons "
                 "per mode, plus random tuples; distinct = distinct settings; non-trivial = imperfect source and at "
                 "least one requested photon")
     chk.assumptions = [
         "q and r are chosen rational; Python receives g2=(1-q^2)/(2*beta) and I=r^2 as floats and takes the roots "
-        "itself (error <= 1e-12 on the grid used: q>=1/20 or q=0 with dyadic beta,g2)",
+        "itself (on the grid used — q>=1/20 and g2>=5e-6, or q=0 with dyadic beta,g2 — the float cancellation of "
+        "p2=(1-x-sqrt(1-2x))/g2, about 3e-16/g2 <= 6e-11, stays below the comparison tolerance 1e-9; smaller g2 is "
+        "not generated)",
         "Source.simplify_distribution is left at its default False",
         "states are compared up to renaming of the non-zero distinguishability tags (complete invariant: "
         "occupation vectors per tag); for generate_samples an unannotated photon and the signal tag _:0 are identified",
@@ -1438,8 +1721,10 @@ def run(chk: core.Check):
         "generate_samples is validated by a statistical goodness-of-fit test only",
         "a NoiseModel updated in place takes effect at the next assignment to processor.noise (NoiseModel has no "
         "observer); reads between the in-place update and the assignment are performed but not judged",
-        "histories use BasicState inputs only (no custom SVDistribution / polarised input, no heralds) and only "
-        "noise values the Source constructor accepts",
+        "histories use only noise values the Source constructor accepts; while a custom input is the current input, "
+        "source_distribution is only compared with the object that was handed over (model-vs-code, not a clause of "
+        "the property); LogicalState inputs (ports) are not generated; clear_input_and_circuit only on processors "
+        "without heralds",
     ]
     chk.required_branches = ["pd-dist", "pd-indist", "nonpd-g2", "nonpd-plain", "perfect", "g2-loss-hom-together",
                              "eta-zero", "tag-offset", "thr-explicit", "trim-active", "single-mode-shortcut",
@@ -1458,8 +1743,19 @@ def run(chk: core.Check):
                              "hist-dirty-read-unjudged", "hist-only-beta-changes", "hist-only-q-changes",
                              "hist-only-eta-changes", "hist-only-r-changes", "hist-only-model-changes"]
     chk.required_branches += [f"hist-{k}-{w}-ideal" for k in ("beta", "q", "eta", "r") for w in ("becomes", "leaves")]
+    # custom inputs share the slot of the cached mixture; clear_input_and_circuit; heralds; probs(); same state again
+    chk.required_branches += ["hist-custom-" + f for f in CUSTOM_FORMS]
+    chk.required_branches += ["hist-fock-after-custom-same-state", "hist-fock-after-custom-other-state",
+                              "hist-fock-after-custom-same-state-noise-assigned",
+                              "hist-fock-after-custom-other-state-noise-assigned",
+                              "hist-noise-assigned-under-custom", "hist-custom-read", "hist-clear",
+                              *["hist-custom-read-after-noise-assigned-" + f for f in CUSTOM_FORMS],
+                              "hist-read-after-clear", "hist-fock-after-clear", "hist-herald", "hist-probs",
+                              "hist-same-input-again"]
     # every cell of the imperfection lattice through every kind of observation
     chk.required_branches += lattice_required()
+    # every order of magnitude through every exact kind of observation
+    chk.required_branches += mag_required()
     chk.lean = core.LeanDriver("C06")
     rng = chk.rng
 
@@ -1528,6 +1824,78 @@ def run(chk: core.Check):
         cases.append({"kind": "hist", "m": len(ns), "objs": [P], "init": {"noise": None, "route": "ctor"},
                       "steps": [{"op": "input", "ns": ns}, {"op": "read"},
                                 {"op": "assign", "id": 0, "route": ["proc", "experiment"][il % 2]}, {"op": "read"}]})
+        # ... and the cell's Fock input given again after a CUSTOM input took its place in the slot of the cached
+        # mixture (with the noise re-assigned / a read / a filter change + probs() in between)
+        form = CUSTOM_FORMS[il % 4]
+        cst = {"op": "custom", "c": 1, "form": form}
+        if form == "svd-same":
+            cst["ns"] = ns
+        mid = [[], [{"op": "assign", "id": 0, "route": "proc"}], [{"op": "read"}],
+               [{"op": "filter", "k": 0}, {"op": "probs"}],
+               [{"op": "assign", "id": 0, "route": "experiment"}, {"op": "read"}]][(il // 4) % 5]
+        cases.append({"kind": "hist", "m": len(ns), "objs": [P], "init": {"noise": 0, "route": "ctor"},
+                      "steps": [{"op": "input", "ns": ns}] + ([{"op": "read"}] if il % 2 else []) + [cst] + mid +
+                               [{"op": "input", "ns": ns}, {"op": "read"}]})
+    # 1b'. the history shapes around custom inputs / clear / heralds / the same state again, deterministically
+    for ip, P in enumerate((FIXED["pd-dist"], FIXED["pd-indist"], FIXED["nonpd-g2"])):
+        A, B = [[1, 0], [0, 1]] if ip != 1 else [[1, 1], [2, 0]]
+        init = {"noise": 0, "route": ["ctor", "experiment", "ctor"][ip]}
+        rd = [{"op": "read"}]
+        Q = {**P, "beta": "9/10" if P["beta"] != "9/10" else "1/2"}
+        det = [
+            (init, 2, [{"op": "input", "ns": A}] + rd + [{"op": "clear"}] + rd + [{"op": "input", "ns": A}] + rd),
+            (init, 2, [{"op": "input", "ns": A}, {"op": "custom", "c": 1, "form": CUSTOM_FORMS[ip], "ns": A}, {"op": "clear"}]
+             + rd + [{"op": "input", "ns": A}] + rd),
+            ({**init, "heralds": {"1": 1}}, 2,
+             [{"op": "input", "ns": A}] + rd + [{"op": "custom", "c": 1, "form": "sv"}, {"op": "assign", "id": 0,
+                                                                                       "route": "proc"},
+                                                {"op": "input", "ns": A}] + rd),
+            ({**init, "heralds": {"0": 1}}, 1, [{"op": "input", "ns": [1]}] + rd + [{"op": "input", "ns": [1]}] + rd
+             + [{"op": "custom", "c": 1, "form": "polarized"}] + rd + [{"op": "input", "ns": [1]}] + rd),
+            (init, 2, [{"op": "input", "ns": A}, {"op": "custom", "c": 1, "form": "svd"},
+                       {"op": "assign", "id": 0, "route": "proc"}, {"op": "input", "ns": B}] + rd),
+            (init, 2, [{"op": "input", "ns": A}] + rd + [{"op": "set", "id": 0, "P": Q, "via": "ref", "fields": "changed"},
+                                                        {"op": "assign", "id": 0, "route": "proc"},
+                                                        {"op": "input", "ns": A}] + rd),
+            (init, 2, [{"op": "input", "ns": A}, {"op": "custom", "c": 1, "form": "svd-same", "ns": A},
+                       {"op": "filter", "k": 0}, {"op": "probs"}, {"op": "input", "ns": B}] + rd
+             + [{"op": "custom", "c": 2, "form": "polarized"}, {"op": "input", "ns": B}] + rd),
+        ]
+        for ini, mm, steps in det:
+            cases.append({"kind": "hist", "m": mm, "objs": [P], "init": ini, "steps": steps})
+    # 1c. orders of magnitude: every decade of brightness*g2 and the extremes of the other axes through every exact
+    #     kind of observation (the sampler is left out: its test has no power at these probabilities; its event
+    #     table is compared exactly)
+    mags = list(MAG)
+    for _ in range(chk.pick(0, 3)):
+        for P0 in MAG:
+            for _ in range(20):
+                P = {**P0, "eta": str(rng.choice(ETAS)), "r": str(rng.choice(RS)), "model": rng.choice([DIST, INDIST])}
+                P = {**P, **{k: P0[k] for k in ("eta", "r") if F(P0[k]) in MAG_GRID[k]}}
+                if valid(P):
+                    mags.append(P)
+                    break
+    for im, P in enumerate(mags):
+        for ns in ([1], [2], [1, 1], [1, 0, 2]):
+            cases.append({"kind": "gen", "P": P, "ns": ns})
+        for n in (1, 2, 3):
+            cases.append({"kind": "pd", "P": P, "n": n})
+        for io, order in enumerate(("ctor", "noise-after", "renoise", "reinput")[im % 2::2]):
+            cases.append({"kind": "proc", "P": P, "ns": [[1, 1], [2], [1, 0, 1], [1, 2]][(im + io) % 4], "order": order})
+        for n, f in ((2, 0), (3, 1 + im % 2)):
+            cases.append({"kind": "table", "P": P, "n": n, "f": f, "cache": (im + n) % 2 == 0})
+        # a long-lived Processor swept to these values from ordinary ones (in place + re-assignment, cache filled)
+        ns = [[1, 1], [2], [1, 0, 1]][im % 3]
+        start = {**P, **{k: str(v[0]) for k, _, v in AXES if F(P[k]) in MAG_GRID[k]}}
+        if valid(start) and start != P:
+            cases.append({"kind": "hist", "m": len(ns), "objs": [start], "init": {"noise": 0, "route": "ctor"},
+                          "steps": [{"op": "input", "ns": ns}, {"op": "read"},
+                                    {"op": "set", "id": 0, "P": P, "via": ["ref", "getter"][im % 2], "fields": "changed"},
+                                    {"op": "assign", "id": 0, "route": "proc"}, {"op": "read"}]})
+        else:
+            cases.append({"kind": "hist", "m": len(ns), "objs": [P], "init": {"noise": None, "route": "ctor"},
+                          "steps": [{"op": "input", "ns": ns}, {"op": "read"},
+                                    {"op": "assign", "id": 0, "route": "proc"}, {"op": "read"}]})
     # 2. random tuples, random inputs, explicit thresholds, tag offsets, deeper inputs (trimming active)
     for _ in range(chk.pick(70, 1300)):
         P = rand_params(rng)
